@@ -389,7 +389,7 @@ func runPlan(c *pbt.Case, p Plan) {
 
 		// ---- reconnect ----
 		former.FC.Refuse(false)
-		if err := cl.WaitConverged(20 * time.Second); err != nil {
+		if err := cl.WaitConvergedConnected(20 * time.Second); err != nil {
 			c.Failf("C06/liveness/no-convergence", "%s after reconnect: %v", tag, err)
 		}
 		judgeTranscripts(tag + " after reconnect")
@@ -397,7 +397,7 @@ func runPlan(c *pbt.Case, p Plan) {
 	}
 	// the cluster keeps working
 	write(cur, p.Final, "final")
-	if err := cl.WaitConverged(20 * time.Second); err != nil {
+	if err := cl.WaitConvergedConnected(20 * time.Second); err != nil {
 		c.Failf("C06/liveness/no-convergence", "final: %v", err)
 	}
 	judgeTranscripts("final")
